@@ -250,28 +250,34 @@ theorem winPost_of_prePost (f : Filter) (full : List Block) (chunk limit lo hi :
   · exact Or.inr ⟨h1, h2, X, hX, hXw, hv, hl, fun _ => hp⟩
 
 theorem eventsPre_spec (cfg : Cfg) (n : Node) (f : Filter) (fromB toB : Nat) (tok : Option Token)
-    (chunk limit height : Nat) (pre : List Block)
-    (hW : 1 ≤ cfg.W) (hchunk : 1 ≤ chunk) (hlen : n.chain.length = height + 1) (hpre : pre ≠ [])
-    (hfit : height + pre.length < sentinel)
+    (chunk limit height H : Nat) (pre : List Block)
+    (hW : 1 ≤ cfg.W) (hchunk : 1 ≤ chunk) (hlen : n.chain.length = H + 1) (hbase : height ≤ H)
+    (hB0 : (toB != sentinel && decide (toB ≤ H)) = false) (hpre : pre ≠ [])
+    (hfit : H + pre.length < sentinel)
     (hwf : ChainWF n.chain) (hpwf : ∀ blk ∈ pre, ∀ it ∈ blk.items, it ∈ blk.bloom)
-    (hs : Servable cfg n height) (hc : CacheGood cfg n n.cache) (hfl : n.floor ≤ startOf fromB tok)
+    (hs : Servable cfg n height) (hc : CacheGood cfg n n.cache)
+    (hfl : startOf fromB tok ≤ height → n.floor ≤ startOf fromB tok)
     (hskip : skipOf tok = 0 ∨
-      (selFrom f (n.chain ++ pre) (loOf fromB tok (height + pre.length)) (skipOf tok) ≠ [] ∧
+      (selFrom f (n.chain.take (height + 1) ++ pre) (loOf fromB tok (height + pre.length)) (skipOf tok) ≠ [] ∧
         startOf fromB tok ≠ sentinel ∧ startOf fromB tok ≤ toB)) :
-    WinPost f (n.chain ++ pre) chunk limit (loOf fromB tok (height + pre.length))
+    WinPost f (n.chain.take (height + 1) ++ pre) chunk limit (loOf fromB tok (height + pre.length))
         (min toB (height + pre.length)) [] (skipOf tok) 0
         (eventsPre cfg n f fromB toB tok chunk limit height pre).1 ∧
       CacheGood cfg n (eventsPre cfg n f fromB toB tok chunk limit height pre).2 := by
-  have hfullLen : (n.chain ++ pre).length - 1 = height + pre.length := by simp [hlen]
+  have htl : (n.chain.take (height + 1)).length = height + 1 := by rw [List.length_take, hlen]; omega
+  have hfullLen : (n.chain.take (height + 1) ++ pre).length - 1 = height + pre.length := by
+    rw [List.length_append, htl]; omega
   have hplen : 1 ≤ pre.length := by
     cases pre with
     | nil => exact absurd rfl hpre
     | cons _ _ => simp
-  have hcongr : ∀ b, b ≤ height → n.chain[b]? = (n.chain ++ pre)[b]? := by
-    intro b hb; rw [List.getElem?_append_left (by omega)]
+  have hcongr : ∀ b, b ≤ height → n.chain[b]? = (n.chain.take (height + 1) ++ pre)[b]? := by
+    intro b hb
+    rw [List.getElem?_append_left (by rw [htl]; omega), List.getElem?_take]
+    simp [show b < height + 1 by omega]
   -- lifting a canonical page over `[start, to]`, `to ≤ height`, to the extended chain
   have hcanon : ∀ start to, to ≤ height → n.floor ≤ start → (skipOf tok = 0 ∨ selFrom f n.chain start (skipOf tok) ≠ []) →
-      WinPost f (n.chain ++ pre) chunk limit start to [] (skipOf tok) 0
+      WinPost f (n.chain.take (height + 1) ++ pre) chunk limit start to [] (skipOf tok) 0
           (canonical cfg n f chunk limit start to (skipOf tok)).1 ∧
         CacheGood cfg n (canonical cfg n f chunk limit start to (skipOf tok)).2 := by
     intro start to hto hfs hsk
@@ -283,7 +289,7 @@ theorem eventsPre_spec (cfg : Cfg) (n : Node) (f : Filter) (fromB toB : Nat) (to
     | err e => simp [WinPost]
     | ok acc t =>
       simp only [WinPost, List.nil_append, List.length_nil]
-      have hw : ∀ lo p, wantN f n.chain lo (to + 1 - lo) p = wantN f (n.chain ++ pre) lo (to + 1 - lo) p :=
+      have hw : ∀ lo p, wantN f n.chain lo (to + 1 - lo) p = wantN f (n.chain.take (height + 1) ++ pre) lo (to + 1 - lo) p :=
         fun lo p => wantN_congr f _ _ lo _ p (fun b _ h2 => hcongr b (by omega))
       rintro (⟨h1, h2, h3⟩ | ⟨h1, h2, X, hX, hXw, hv, hl, hp⟩)
       · exact Or.inl ⟨h1, by rw [h2, hw], h3⟩
@@ -308,100 +314,66 @@ theorem eventsPre_spec (cfg : Cfg) (n : Node) (f : Filter) (fromB toB : Nat) (to
   split
   · rename_i h0; omega
   · rename_i height' heq
-    have : height' = height := by omega
+    have : height' = H := by omega
     subst this
     have hsent : sentinel = 2 ^ 64 - 1 := rfl
-    have hnp : ∀ x, (decide (startOf fromB tok ≤ x) && decide (startOf fromB tok < n.floor)) = false := by
-      intro x; simp only [Bool.and_eq_false_iff, decide_eq_false_iff_not]; right; omega
+    simp only [hB0, Bool.false_eq_true, if_false]
+    have hnp : (decide (startOf fromB tok ≤ height) && decide (startOf fromB tok < n.floor)) = false := by
+      simp only [Bool.and_eq_false_iff, decide_eq_false_iff_not]
+      by_cases hle : startOf fromB tok ≤ height
+      · right; have := hfl hle; omega
+      · left; exact hle
     simp only [hnp, Bool.false_eq_true, if_false]
     by_cases hA : (toB != sentinel && decide (toB ≤ height')) = true
-    · -- the range ends in the canonical chain
-      simp only [hA, if_true]
-      simp only [Bool.and_eq_true, bne_iff_ne, ne_eq, decide_eq_true_eq] at hA
-      have hmin : min toB (height' + pre.length) = toB := Nat.min_eq_left (by omega)
-      rw [hmin]
-      by_cases hst : startOf fromB tok = sentinel
-      · -- lower bound `pre_confirmed`, upper bound canonical: nothing
-        have hl : loOf fromB tok (height' + pre.length) = height' + pre.length := by simp [loOf, hst]
-        rw [hl]
-        have hsk0 : skipOf tok = 0 := by
-          rcases hskip with h | ⟨_, h, _⟩
-          · exact h
-          · exact absurd hst h
-        obtain ⟨hp, hcg⟩ := hcanon (startOf fromB tok) toB hA.2 hfl (Or.inl hsk0)
-        refine ⟨?_, hcg⟩
-        revert hp
-        cases (canonical cfg n f chunk limit (startOf fromB tok) toB (skipOf tok)).1 with
-        | err e => simp [WinPost]
-        | ok acc t =>
-          simp only [WinPost, List.nil_append, List.length_nil]
-          have z1 : toB + 1 - startOf fromB tok = 0 := by omega
-          have z2 : toB + 1 - (height' + pre.length) = 0 := by omega
-          rintro (⟨h1, h2, h3⟩ | ⟨h1, h2, _⟩)
-          · exact Or.inl ⟨h1, by rw [h2, z1, z2]; simp [wantN], h3⟩
-          · omega
-      · have hl : loOf fromB tok (height' + pre.length) = startOf fromB tok := by
-          have : (startOf fromB tok == sentinel) = false := by simpa using hst
-          simp [loOf, this]
-        rw [hl]
-        by_cases hle : startOf fromB tok ≤ height'
-        · exact hcanon _ toB hA.2 hfl (hskipChain hle)
-        · -- start above the range end: nothing, whatever the skip count
-          have hcan : canonical cfg n f chunk limit (startOf fromB tok) toB (skipOf tok) = (.ok [] Token.none, n.cache) := by
-            unfold canonical; simp [show startOf fromB tok > toB by omega]
-          rw [hcan]
-          refine ⟨Or.inl ⟨rfl, ?_, by simp⟩, hc⟩
-          have : toB + 1 - startOf fromB tok = 0 := by omega
-          simp [this, wantN]
-    · simp only [hA, Bool.false_eq_true, if_false]
-      have hB : ¬ toB ≤ height' := by
+    · rw [hB0] at hA; cases hA
+    · have hB : ¬ toB ≤ height := by
         intro hle
         simp only [Bool.and_eq_true, bne_iff_ne, ne_eq, decide_eq_true_eq, not_and] at hA
         by_cases hts : toB = sentinel
         · omega
-        · exact hA hts hle
+        · exact hA hts (by omega)
       simp only [hB, if_false]
-      have hhi : height' + 1 ≤ min toB (height' + pre.length) := by simp only [Nat.le_min]; omega
-      generalize hhidef : min toB (height' + pre.length) = hi at hhi
-      have hhi2 : hi ≤ height' + pre.length := by rw [← hhidef]; exact Nat.min_le_right _ _
+      have hhi : height + 1 ≤ min toB (height + pre.length) := by simp only [Nat.le_min]; omega
+      generalize hhidef : min toB (height + pre.length) = hi at hhi
+      have hhi2 : hi ≤ height + pre.length := by rw [← hhidef]; exact Nat.min_le_right _ _
       have hhi3 : hi ≤ toB := by rw [← hhidef]; exact Nat.min_le_left _ _
       have hpreSpec : ∀ fromP acc skip, acc.length ≤ chunk →
-          (skip = 0 ∨ (height' + 1 ≤ fromP ∧ fromP < (n.chain ++ pre).length ∧ fromP ≤ toB ∧
-            selFrom f (n.chain ++ pre) fromP skip ≠ [])) →
-          PrePost f (n.chain ++ pre) chunk (max (height' + 1) fromP) hi acc skip
-            (scanPre f chunk fromP toB (height' + 1) pre acc skip) := by
+          (skip = 0 ∨ (height + 1 ≤ fromP ∧ fromP < (n.chain.take (height + 1) ++ pre).length ∧ fromP ≤ toB ∧
+            selFrom f (n.chain.take (height + 1) ++ pre) fromP skip ≠ [])) →
+          PrePost f (n.chain.take (height + 1) ++ pre) chunk (max (height + 1) fromP) hi acc skip
+            (scanPre f chunk fromP toB (height + 1) pre acc skip) := by
         intro fromP acc skip hacc hsk
-        have := scanPre_spec f (n.chain ++ pre) chunk fromP toB pre (height' + 1) acc skip
-          (by simp [hlen]) (by
+        have := scanPre_spec f (n.chain.take (height + 1) ++ pre) chunk fromP toB pre (height + 1) acc skip
+          (by rw [List.length_append, htl]) (by
             intro i
-            rw [List.getElem?_append_right (by omega)]
+            rw [List.getElem?_append_right (by rw [htl]; omega), htl]
             congr 1; omega) hpwf hsk hacc
         rw [hfullLen, hhidef] at this
         exact this
-      by_cases hle : startOf fromB tok ≤ height'
+      by_cases hle : startOf fromB tok ≤ height
       · simp only [hle, if_true]
         have hst : startOf fromB tok ≠ sentinel := by omega
-        have hl : loOf fromB tok (height' + pre.length) = startOf fromB tok := by
+        have hl : loOf fromB tok (height + pre.length) = startOf fromB tok := by
           have : (startOf fromB tok == sentinel) = false := by simpa using hst
           simp [loOf, this]
         have hst' : (startOf fromB tok == sentinel) = false := by simpa using hst
         simp only [hst', Bool.false_eq_true, if_false]
         rw [hl]
-        obtain ⟨hp, hcg⟩ := hcanon (startOf fromB tok) height' (Nat.le_refl _) hfl (hskipChain hle)
+        obtain ⟨hp, hcg⟩ := hcanon (startOf fromB tok) height (Nat.le_refl _) (hfl hle) (hskipChain hle)
         revert hp hcg
-        generalize canonical cfg n f chunk limit (startOf fromB tok) height' (skipOf tok) = cr
+        generalize canonical cfg n f chunk limit (startOf fromB tok) height (skipOf tok) = cr
         obtain ⟨res, c⟩ := cr
         cases res with
         | err e => simp [WinPost]
         | ok acc t =>
           simp only [WinPost, List.nil_append, List.length_nil]
           intro hp hcg
-          have hsplit : ∀ lo p, lo ≤ height' → wantN f (n.chain ++ pre) lo (hi + 1 - lo) p =
-              wantN f (n.chain ++ pre) lo (height' + 1 - lo) p ++ wantN f (n.chain ++ pre) (height' + 1) (hi - height') 0 := by
+          have hsplit : ∀ lo p, lo ≤ height → wantN f (n.chain.take (height + 1) ++ pre) lo (hi + 1 - lo) p =
+              wantN f (n.chain.take (height + 1) ++ pre) lo (height + 1 - lo) p ++ wantN f (n.chain.take (height + 1) ++ pre) (height + 1) (hi - height) 0 := by
             intro lo p hlo
-            have := wantN_split f (n.chain ++ pre) lo (height' + 1 - lo) (hi - height') p (by omega)
-            have e1 : height' + 1 - lo + (hi - height') = hi + 1 - lo := by omega
-            have e2 : lo + (height' + 1 - lo) = height' + 1 := by omega
+            have := wantN_split f (n.chain.take (height + 1) ++ pre) lo (height + 1 - lo) (hi - height) p (by omega)
+            have e1 : height + 1 - lo + (hi - height) = hi + 1 - lo := by omega
+            have e2 : lo + (height + 1 - lo) = height + 1 := by omega
             rw [e1, e2] at this; exact this
           rcases hp with ⟨h1, h2, h3⟩ | ⟨h1, h2, X, hX, hXw, hv, hl', hp⟩
           · -- the canonical part is exhausted: continue with the pre-confirmed blocks
@@ -412,10 +384,10 @@ theorem eventsPre_spec (cfg : Cfg) (n : Node) (f : Filter) (fromB toB : Nat) (to
             have := hpreSpec (startOf fromB tok) acc 0 h3 (Or.inl rfl)
             rw [Nat.max_eq_left (by omega)] at this
             revert this
-            generalize scanPre f chunk (startOf fromB tok) toB (height' + 1) pre acc 0 = r
+            generalize scanPre f chunk (startOf fromB tok) toB (height + 1) pre acc 0 = r
             obtain ⟨a, t⟩ := r
             simp only [PrePost]
-            have e1 : hi + 1 - (height' + 1) = hi - height' := by omega
+            have e1 : hi + 1 - (height + 1) = hi - height := by omega
             rintro (⟨g1, g2, g3⟩ | ⟨g1, g2, Y, hY, hYw, gv, gl, _⟩)
             · exact Or.inl ⟨g1, by rw [g2, h2, hsplit _ _ hle, e1], g3⟩
             · refine Or.inr ⟨by omega, g2, acc ++ Y, hY, ?_, gv, gl,
@@ -432,19 +404,19 @@ theorem eventsPre_spec (cfg : Cfg) (n : Node) (f : Filter) (fromB toB : Nat) (to
             rw [hsplit _ _ hle, hsplit _ _ h2, ← List.append_assoc, hXw]
       · simp only [hle, if_false]
         refine ⟨?_, hc⟩
-        have hlo : height' + 1 ≤ loOf fromB tok (height' + pre.length) := by
+        have hlo : height + 1 ≤ loOf fromB tok (height + pre.length) := by
           simp only [loOf]; split <;> omega
-        have := hpreSpec (loOf fromB tok (height' + pre.length)) [] (skipOf tok) (by simp)
+        have := hpreSpec (loOf fromB tok (height + pre.length)) [] (skipOf tok) (by simp)
           (by
             rcases hskip with h | ⟨h, h2, h3⟩
             · exact Or.inl h
             · right
-              have hl : loOf fromB tok (height' + pre.length) = startOf fromB tok := by
+              have hl : loOf fromB tok (height + pre.length) = startOf fromB tok := by
                 have : (startOf fromB tok == sentinel) = false := by simpa using h2
                 simp [loOf, this]
               refine ⟨hlo, ?_, by rw [hl]; exact h3, h⟩
               -- a non-empty selection means the block exists
-              rcases Nat.lt_or_ge (loOf fromB tok (height' + pre.length)) (n.chain ++ pre).length with g | g
+              rcases Nat.lt_or_ge (loOf fromB tok (height + pre.length)) (n.chain.take (height + 1) ++ pre).length with g | g
               · exact g
               · exfalso; apply h
                 simp [selFrom, List.getElem?_eq_none g])
@@ -457,27 +429,29 @@ def ValidPre (f : Filter) (full : List Block) (fromB toB top : Nat) (tok : Optio
   skipOf tok = 0 ∨
     (selFrom f full (loOf fromB tok top) (skipOf tok) ≠ [] ∧ startOf fromB tok ≠ sentinel ∧ startOf fromB tok ≤ toB)
 
-theorem collectPre_spec (cfg : Cfg) (f : Filter) (fromB toB chunk limit height : Nat) (pre : List Block)
-    (hW : 1 ≤ cfg.W) (hchunk : 1 ≤ chunk) (hpre : pre ≠ []) (hfit : height + pre.length < sentinel)
+theorem collectPre_spec (cfg : Cfg) (f : Filter) (fromB toB chunk limit height H : Nat) (pre : List Block)
+    (hW : 1 ≤ cfg.W) (hchunk : 1 ≤ chunk) (hbase : height ≤ H)
+    (hB0 : (toB != sentinel && decide (toB ≤ H)) = false) (hpre : pre ≠ []) (hfit : H + pre.length < sentinel)
     (hpwf : ∀ blk ∈ pre, ∀ it ∈ blk.items, it ∈ blk.bloom) :
     ∀ (fuel : Nat) (n : Node) (tok : Option Token),
-      n.chain.length = height + 1 → ChainWF n.chain → Servable cfg n height → CacheGood cfg n n.cache →
-      n.floor ≤ startOf fromB tok → n.floor ≤ height →
-      ValidPre f (n.chain ++ pre) fromB toB (height + pre.length) tok →
-      (wantN f (n.chain ++ pre) (loOf fromB tok (height + pre.length))
+      n.chain.length = H + 1 → ChainWF n.chain → Servable cfg n height → CacheGood cfg n n.cache →
+      (startOf fromB tok ≤ height → n.floor ≤ startOf fromB tok) →
+      ValidPre f (n.chain.take (height + 1) ++ pre) fromB toB (height + pre.length) tok →
+      (wantN f (n.chain.take (height + 1) ++ pre) (loOf fromB tok (height + pre.length))
           (min toB (height + pre.length) + 1 - loOf fromB tok (height + pre.length)) (skipOf tok)).length
         + (min toB (height + pre.length) + 1 - loOf fromB tok (height + pre.length)) < fuel →
       collectPre cfg f fromB toB chunk limit height pre fuel n tok =
-        some (wantN f (n.chain ++ pre) (loOf fromB tok (height + pre.length))
+        some (wantN f (n.chain.take (height + 1) ++ pre) (loOf fromB tok (height + pre.length))
           (min toB (height + pre.length) + 1 - loOf fromB tok (height + pre.length)) (skipOf tok)) := by
   intro fuel
   induction fuel with
-  | zero => intro n tok _ _ _ _ _ _ _ h; omega
+  | zero => intro n tok _ _ _ _ _ _ h; omega
   | succ fuel ih =>
-    intro n tok hlen hwf hs hc hfl hfh hv hfuel
+    intro n tok hlen hwf hs hc hfl hv hfuel
     unfold collectPre
     simp only [queryPre]
-    obtain ⟨hpost, hcg⟩ := eventsPre_spec cfg n f fromB toB tok chunk limit height pre hW hchunk hlen hpre hfit hwf hpwf hs hc hfl hv
+    obtain ⟨hpost, hcg⟩ := eventsPre_spec cfg n f fromB toB tok chunk limit height H pre hW hchunk hlen hbase hB0 hpre hfit
+      hwf hpwf hs hc hfl hv
     revert hpost
     cases hr : (eventsPre cfg n f fromB toB tok chunk limit height pre).1 with
     | err e => simp [WinPost]
@@ -499,14 +473,21 @@ theorem collectPre_spec (cfg : Cfg) (f : Filter) (fromB toB chunk limit height :
         have hlo' : loOf fromB (some t) (height + pre.length) = t.b := by
           have : (t.b == sentinel) = false := by simpa using hns
           simp [loOf, startOf, this]
+        have hplen : 1 ≤ pre.length := by
+          cases pre with
+          | nil => exact absurd rfl hpre
+          | cons _ _ => simp
         have hrec := ih { n with cache := (eventsPre cfg n f fromB toB tok chunk limit height pre).2 } (some t)
-          hlen hwf ⟨hs.running, hs.persisted⟩ hcg
+          hlen hwf ⟨hs.live, hs.running, hs.persisted⟩ hcg
           (by
+            intro hle
             show n.floor ≤ t.b
-            have : loOf fromB tok (height + pre.length) ≤ t.b := h1
-            simp only [loOf] at this
-            split at this <;> omega)
-          hfh
+            have hle' : t.b ≤ height := hle
+            have hlo : loOf fromB tok (height + pre.length) ≤ t.b := h1
+            simp only [loOf] at hlo
+            split at hlo
+            · omega
+            · have := hfl (by omega); omega)
           (by
             rcases hv' with h | h
             · exact Or.inl h
